@@ -568,7 +568,9 @@ func (f *FaceModule) query(interest *spec.Interest, pitToken []byte, _ uint64) {
 		return
 	}
 	filterV, err := mgmt.ParseFaceQueryFilter(enc.NewBufferReader(interest.NameV[f.manager.prefixLength()+2].Val), true)
-	if err != nil {
+	if err != nil || filterV.Val == nil {
+		// Undecodable, or no FaceQueryFilter element in the component
+		core.LogWarn(f, "Missing or malformed FaceQueryFilter in ", interest.Name())
 		return
 	}
 	filter := filterV.Val
